@@ -44,11 +44,17 @@ func Resources(c pdf.Cursor, obj pdf.Object, isDirect bool) (*content.Resources,
 	}
 
 	// extract ExtGState subdictionary
-	if extGStateDict, err := c.Dict(dict["ExtGState"]); err == nil && extGStateDict != nil {
+	extGStateDict, err := c.Dict(dict["ExtGState"])
+	if pdf.IsReadError(err) {
+		return nil, err
+	}
+	if err == nil && extGStateDict != nil {
 		for name, obj := range extGStateDict {
 			gs, err := pdf.Decode(c, obj, ExtGState)
-			if err != nil {
-				continue // permissive
+			if pdf.IsReadError(err) {
+				return nil, err
+			} else if err != nil {
+				continue // permissive: malformed entries are skipped
 			}
 			if res.ExtGState == nil {
 				res.ExtGState = make(map[pdf.Name]*extgstate.ExtGState)
@@ -58,11 +64,17 @@ func Resources(c pdf.Cursor, obj pdf.Object, isDirect bool) (*content.Resources,
 	}
 
 	// extract ColorSpace subdictionary
-	if colorSpaceDict, err := c.Dict(dict["ColorSpace"]); err == nil && colorSpaceDict != nil {
+	colorSpaceDict, err := c.Dict(dict["ColorSpace"])
+	if pdf.IsReadError(err) {
+		return nil, err
+	}
+	if err == nil && colorSpaceDict != nil {
 		for name, obj := range colorSpaceDict {
 			cs, err := pdf.Decode(c, obj, ColorSpace)
-			if err != nil {
-				continue // permissive
+			if pdf.IsReadError(err) {
+				return nil, err
+			} else if err != nil {
+				continue // permissive: malformed entries are skipped
 			}
 			if res.ColorSpace == nil {
 				res.ColorSpace = make(map[pdf.Name]color.Space)
@@ -72,11 +84,17 @@ func Resources(c pdf.Cursor, obj pdf.Object, isDirect bool) (*content.Resources,
 	}
 
 	// extract Pattern subdictionary
-	if patternDict, err := c.Dict(dict["Pattern"]); err == nil && patternDict != nil {
+	patternDict, err := c.Dict(dict["Pattern"])
+	if pdf.IsReadError(err) {
+		return nil, err
+	}
+	if err == nil && patternDict != nil {
 		for name, obj := range patternDict {
 			pat, err := pdf.Decode(c, obj, Pattern)
-			if err != nil {
-				continue // permissive
+			if pdf.IsReadError(err) {
+				return nil, err
+			} else if err != nil {
+				continue // permissive: malformed entries are skipped
 			}
 			if res.Pattern == nil {
 				res.Pattern = make(map[pdf.Name]color.Pattern)
@@ -86,11 +104,17 @@ func Resources(c pdf.Cursor, obj pdf.Object, isDirect bool) (*content.Resources,
 	}
 
 	// extract Shading subdictionary
-	if shadingDict, err := c.Dict(dict["Shading"]); err == nil && shadingDict != nil {
+	shadingDict, err := c.Dict(dict["Shading"])
+	if pdf.IsReadError(err) {
+		return nil, err
+	}
+	if err == nil && shadingDict != nil {
 		for name, obj := range shadingDict {
 			sh, err := pdf.Decode(c, obj, Shading)
-			if err != nil {
-				continue // permissive
+			if pdf.IsReadError(err) {
+				return nil, err
+			} else if err != nil {
+				continue // permissive: malformed entries are skipped
 			}
 			if res.Shading == nil {
 				res.Shading = make(map[pdf.Name]graphics.Shading)
@@ -100,11 +124,17 @@ func Resources(c pdf.Cursor, obj pdf.Object, isDirect bool) (*content.Resources,
 	}
 
 	// extract XObject subdictionary
-	if xobjectDict, err := c.Dict(dict["XObject"]); err == nil && xobjectDict != nil {
+	xobjectDict, err := c.Dict(dict["XObject"])
+	if pdf.IsReadError(err) {
+		return nil, err
+	}
+	if err == nil && xobjectDict != nil {
 		for name, obj := range xobjectDict {
 			xobj, err := pdf.Decode(c, obj, XObject)
-			if err != nil {
-				continue // permissive
+			if pdf.IsReadError(err) {
+				return nil, err
+			} else if err != nil {
+				continue // permissive: malformed entries are skipped
 			}
 			if res.XObject == nil {
 				res.XObject = make(map[pdf.Name]graphics.XObject)
@@ -114,11 +144,17 @@ func Resources(c pdf.Cursor, obj pdf.Object, isDirect bool) (*content.Resources,
 	}
 
 	// extract Font subdictionary
-	if fontDict, err := c.Dict(dict["Font"]); err == nil && fontDict != nil {
+	fontDict, err := c.Dict(dict["Font"])
+	if pdf.IsReadError(err) {
+		return nil, err
+	}
+	if err == nil && fontDict != nil {
 		for name, obj := range fontDict {
 			f, err := pdf.Decode(c, obj, Font)
-			if err != nil {
-				continue // permissive
+			if pdf.IsReadError(err) {
+				return nil, err
+			} else if err != nil {
+				continue // permissive: malformed entries are skipped
 			}
 			if res.Font == nil {
 				res.Font = make(map[pdf.Name]font.Instance)
@@ -128,11 +164,17 @@ func Resources(c pdf.Cursor, obj pdf.Object, isDirect bool) (*content.Resources,
 	}
 
 	// extract Properties subdictionary
-	if propertiesDict, err := c.Dict(dict["Properties"]); err == nil && propertiesDict != nil {
+	propertiesDict, err := c.Dict(dict["Properties"])
+	if pdf.IsReadError(err) {
+		return nil, err
+	}
+	if err == nil && propertiesDict != nil {
 		for name, obj := range propertiesDict {
 			props, err := pdf.Decode(c, obj, property.ExtractList)
-			if err != nil {
-				continue // permissive
+			if pdf.IsReadError(err) {
+				return nil, err
+			} else if err != nil {
+				continue // permissive: malformed entries are skipped
 			}
 			if res.Properties == nil {
 				res.Properties = make(map[pdf.Name]property.List)
@@ -142,7 +184,11 @@ func Resources(c pdf.Cursor, obj pdf.Object, isDirect bool) (*content.Resources,
 	}
 
 	// extract ProcSet
-	if procSetArray, err := c.Array(dict["ProcSet"]); err == nil && procSetArray != nil {
+	procSetArray, err := c.Array(dict["ProcSet"])
+	if pdf.IsReadError(err) {
+		return nil, err
+	}
+	if err == nil && procSetArray != nil {
 		for _, obj := range procSetArray {
 			name, ok := obj.(pdf.Name)
 			if !ok {
